@@ -12,6 +12,9 @@ How a declaration hands its component names over is a dimension of the spec
 (args.f: a fresh collection / a one-shot iterator / a collection the caller
 owns, changes afterwards (action Mutate) and re-uses): catalog I explores it
 exhaustively, T / U (simulation, random traces) sample it.
+So are the listen_args of listen_to_dependencies (args.la: per component - or
+for all of them - a priority class and weak / strong) and the caller dropping
+its reference to a sink (action Drop): catalog O exhaustively, T / U sampled.
 """
 import copy
 import random
@@ -28,7 +31,8 @@ LIFE = {"A": ["GetDeferral", "Release", "Quit"], "B": ["GetDeferral", "Release",
         "L2": ["Release", "Quit"], "L3": ["Release", "Quit"], "R": ["GetDeferral", "Release"], "RQ": ["GetDeferral", "Release"]}
 # catalogs I / J have no lifecycle: the caller's collections instead
 REQUIRED = {"I": ["Register", "CallWhenReady", "ListenTo", "Mutate"],
-            "J": ["Register", "CallWhenReady", "ListenTo", "Mutate"]}
+            "J": ["Register", "CallWhenReady", "ListenTo", "Mutate"],
+            "O": ["Register", "CallWhenReady", "ListenTo", "Drop"]}
 SPEC = "core"
 MOD = "MCRendezvous"
 
@@ -64,7 +68,8 @@ def nontrivial(beh):
 
 
 CLASS_KEYS = ("action", "via", "observed", "callback", "container", "handlers", "observed_life",
-              "expected_life", "fired_extra", "fired_missing", "fields", "life", "decl", "op")
+              "expected_life", "fired_extra", "fired_missing", "fields", "life", "decl", "op", "wiring",
+              "listen_args", "sink_dropped")
 
 
 def _one_replay_per_class(ctx, keep=2):
@@ -114,13 +119,20 @@ def run(ctx):
       "listen_to_dependencies is called, however they are handed over (fresh collection of any iterable kind, "
       "one-shot iterator, a collection the caller keeps and changes or re-uses afterwards); exhaustive for "
       "2 components / 3 waiters / one caller-owned collection (catalog I; thorough also J: 3 components), "
-      "sampled for 5 / 5 / 2; the args / kw / listen_args arguments are not varied",
+      "sampled for 5 / 5 / 2; the args / kw arguments are not varied",
+      "a sink's listeners on component c are subscribed with the options listen_args gives for c (missing keys "
+      "from the None entry, then priority 0 / strong); observed as the place of the sink's handler relative to "
+      "two reference listeners (priorities +5 / -5) on every event-raising component, and as what is still "
+      "delivered after the harness dropped its only reference to the sink (a sink lives on while core holds "
+      "its pending entry or one of its subscriptions is strong); exhaustive for one sink with two handled "
+      "components x 13 listen_args + one with a single component (catalog O), sampled for T / U; every "
+      "declaration gets a listen_args dict of its own (a dict re-used or changed by the caller is not explored)",
       "GoingUp deferrals are obtained through event.get_deferral(), by GoingUp handlers or later from the "
       "kept event; lifecycle events are expected synchronously inside goUp() / the deferral call / quit()",
       "what a sink gets when its rendezvous happens (listeners for its _handle_<component>_<Event> methods, "
       "attributes, _all_dependencies_met) is taken from listen_to_dependencies' documentation"]
-  mc_cfgs = ["QA", "QB", "L2", "RQ", "I"] if quick else ["A", "B", "C", "L3", "R", "I", "J"]
-  ex_cfgs = ["QA", "QB", "L2", "RQ", "I"] if quick else ["QA", "QB", "L2", "R", "L3", "C", "I"]
+  mc_cfgs = ["QA", "QB", "L2", "RQ", "I", "O"] if quick else ["A", "B", "C", "L3", "R", "I", "J", "O"]
+  ex_cfgs = ["QA", "QB", "L2", "RQ", "I", "O"] if quick else ["QA", "QB", "L2", "R", "L3", "C", "I", "O"]
   nsim = 80 if quick else 2500
   with ThreadPoolExecutor(max_workers=4 if quick else 6) as pool:
     f_mc = [(c, pool.submit(_mc, c)) for c in mc_cfgs]
@@ -221,6 +233,10 @@ def run(ctx):
         sig["deps"] = len(ev["args"]["deps"])
       if pending_forms(traces[t], matched):
         sig["decl"] = pending_forms(traces[t], matched)
+      las = sorted(set(ac.la_class(e["args"]["la"]) for e in traces[t][:matched + 1] if e["a"] == "ListenTo"))
+      if las and las != ["none"]:
+        sig["listen_args"] = las
+        sig["sink_dropped"] = any(e["a"] == "Drop" for e in traces[t][:matched + 1])
       if ev["a"] == "GoUp":
         sig["handlers"] = "+".join(".".join(op["k"] for op in p) or "none" for p in ev["args"]["hs"]) or "-"
         sig["up"] = ".".join(op["k"] for op in ev["args"]["up"]) or "none"
@@ -247,7 +263,7 @@ KINDS = ["none", "hold", "sync", "relprev"]
 
 
 def _args(**kw):
-  a = dict(c="-", w="-", deps=[], hs=[], up=[], o="-", re=False, f="-")
+  a = dict(c="-", w="-", deps=[], hs=[], up=[], o="-", re=False, f="-", la=[])
   a.update(kw)
   return a
 
@@ -303,6 +319,9 @@ def drive(arg):
       ops.append(("Release", 3))
     if ad.colls:
       ops.append(("Mutate", 3))
+    live = sorted(ad.sinks)
+    if cat.get("drop") and live:
+      ops.append(("Drop", 2))
     k = rnd.choices([o for o, _ in ops], [w for _, w in ops])[0]
     if k == "Register":
       a, args = "Register", _args(c=rnd.choice(comps))
@@ -316,10 +335,17 @@ def drive(arg):
       if f in ad.colls:
         deps = ad.coll_syms(f)
       args = _args(w=w, deps=deps, f=f)
+      if a == "ListenTo" and rnd.random() < 0.6:
+        # listen_args: options for some components (and / or for all of them: "*")
+        keys = rnd.sample(comps + ["*"], rnd.choice([1, 1, 2, 2, 3]))
+        args["la"] = [dict(c=c, p=rnd.choice(["hi", "mid", "lo", "-", "-"]), w=rnd.choice(["y", "n", "-"]))
+                      for c in sorted(keys)]
     elif k == "Mutate":
       f = rnd.choice(sorted(ad.colls))
       c = rnd.choice(comps)
       a, args = "Mutate", _args(f=f, c=c, o="del" if c in ad.coll_syms(f) else "add")
+    elif k == "Drop":
+      a, args = "Drop", _args(w=rnd.choice(live))
     elif k == "GoUp":
       goneup = True
       a = "GoUp"
@@ -339,8 +365,9 @@ def drive(arg):
         ev["exc"] = "diverged"
         raise ValueError("diverged")
       obs = dict(log=o["logs"][0], comps=o["comps"], wired=o["wired"], attrs=o["attrs"])
-      if any(len(p) != 2 for p in obs["wired"] + obs["attrs"]):
-        ev["exc"] = "anomalous-wiring:" + repr([p for p in obs["wired"] + obs["attrs"] if len(p) != 2])[:80]
+      bad = [p for p in obs["wired"] if len(p) != 3] + [p for p in obs["attrs"] if len(p) != 2]
+      if bad:
+        ev["exc"] = "anomalous-wiring:" + repr(bad)[:80]
         raise ValueError("anomaly")
     except Exception as e:
       ev["exc"] = ev["exc"] or "exception:" + type(e).__name__
@@ -411,6 +438,19 @@ def negative_controls(traces):
   if t:
     t[i]["obs"]["wired"] = t[i]["obs"]["wired"][1:]
     out.append(("a sink's listener missing after its rendezvous", src, t[:i + 1]))
+  # a listener delivered at another place than the priority given for its component puts it
+  t, i, src = find(lambda e: e["obs"]["wired"])
+  if t:
+    x = t[i]["obs"]["wired"][0]
+    x[2] = "hi" if x[2] != "hi" else "mid"
+    out.append(("a sink's listener delivered with another priority than the one given for its component",
+                src, t[:i + 1]))
+  # a strongly subscribed sink that disappears once the caller dropped it
+  t, i, src = find(lambda e: e["a"] == "Drop" and any(p[0] == e["args"]["w"] for p in e["obs"]["wired"]))
+  if t:
+    w = t[i]["args"]["w"]
+    t[i]["obs"]["wired"] = [p for p in t[i]["obs"]["wired"] if p[0] != w]
+    out.append(("a strongly subscribed sink no longer delivered to after the caller dropped it", src, t[:i + 1]))
   # a waiter declared through a collection of the caller's which the caller
   # then changed: it still waits for what the collection held when it was declared
   for t0 in traces:
